@@ -24,6 +24,7 @@ import (
 
 	"verifharness/internal/fakemysql"
 	"verifharness/internal/pbt"
+	"verifharness/internal/proxyfix"
 	sh "verifharness/internal/sesshist"
 )
 
@@ -35,8 +36,8 @@ type model struct {
 	pinGen  int                   // namespace generation the pins belong to
 	pending bool                  // the namespace changed since this client's last command
 	// state when the namespace changed
-	inTxAtChange  bool
-	ac0AtChange   bool
+	inTxAtChange bool
+	ac0AtChange  bool
 	// fresh: the client has not yet run a statement since its pins were dropped by a configuration change
 	fresh bool
 	// doomed: the first command after a configuration change made outside a transaction was BEGIN / START TRANSACTION /
@@ -58,7 +59,7 @@ func checkCase(c sh.Case) (o pbt.Outcome) {
 	for i := range c.Cmds {
 		c.Cmds[i].F = nil
 	}
-	tr, live := sh.RunLive(c, sh.Options{ProbeCloseOnErr: 1500 * time.Millisecond})
+	tr, live := sh.RunLive(c, sh.Options{ProbeCloseOnErr: 3 * time.Second})
 	defer live.Close()
 	if os.Getenv("VERIF_TRACE") != "" {
 		fmt.Println(sh.Dump(tr))
@@ -106,7 +107,7 @@ func checkCase(c sh.Case) (o pbt.Outcome) {
 	knownF1 := ""
 	body := func(st sh.Step, s int, m *model, evs []fakemysql.Event, disconnect bool) {
 		if st.IOErr != "" {
-			if m.doomed >= 0 && strings.Contains(st.IOErr, "EOF") {
+			if m.doomed >= 0 && (strings.Contains(st.IOErr, "EOF") || strings.Contains(st.IOErr, "reset") || strings.Contains(st.IOErr, "broken pipe")) {
 				if knownF1 == "" {
 					knownF1 = fmt.Sprintf("step %d (session %d, %s %q): the proxy dropped the client (%s): the namespace changed while it was outside a transaction, its next command (step %d, entering a transaction) was answered OK and then the session was closed", st.Idx, s, st.Cmd.K, st.SQL, st.IOErr, m.doomed)
 				}
@@ -385,9 +386,12 @@ func describe(ms []*model) string {
 const rule = "keep-session namespace, 1-3 clients, 1-3 slices: statements on 1-3 slices, SET @v / SET variable, BEGIN / COMMIT / ROLLBACK / SET autocommit / savepoints, COM_PING, namespace configuration change (real prepare+commit of the same name), COM_QUIT / FIN disconnects; non-trivial = a client issues a command after a configuration change"
 
 func TestC23Pinning(t *testing.T) {
+	if _, err := proxyfix.Shared(); err != nil {
+		t.Fatalf("fixture: the shared proxy did not start: %v", err) // inconclusive, not a violation
+	}
 	gen := genCase
 	if pbt.Tier() == "thorough" {
 		gen = genCaseThorough
 	}
-	pbt.Run(t, pbt.Spec{ID: "C23", Sub: "pinning", Quick: 120, Thorough: 1000, Rule: rule, Floor: 0.5}, gen, checkCase)
+	pbt.Run(t, pbt.Spec{ID: "C23", Sub: "pinning", Quick: 120, Thorough: 800, Rule: rule, Floor: 0.5}, gen, checkCase)
 }
